@@ -215,7 +215,7 @@ func checkC08(c *Ctx) {
 		ru5.Check(okStamp && badStamp == "", key, c.where(f, f), want+" = clock()", badStamp+map[bool]string{true: "", false: " no " + want + " = clock() store found"}[okStamp])
 	}
 
-	c.ruleVisibility("C08-R6", d)
+	c.ruleVisibility("C08-R6", d, 6)
 	c.ruleDelegateWiring("C08-R7", d)
 }
 
@@ -228,8 +228,8 @@ func derefNamedName(t types.Type) string {
 }
 
 // ruleVisibility implements C08-R6 / C01-R1 / C07-R3: query results contain only entries for which IsEntryAdded holds.
-func (c *Ctx) ruleVisibility(id string, d *dstate) {
-	ru := c.R.Rule(id, "every entry that flows into the result of a state query is copied only under crdt.IsEntryAdded(entry) == true (removed entries are never listed)", "E3 taint (store entries) cleansed by the guard + E2 control dependence", 6)
+func (c *Ctx) ruleVisibility(id string, d *dstate, min int) {
+	ru := c.R.Rule(id, "every entry that flows into the result of a state query is copied only under crdt.IsEntryAdded(entry) == true (removed entries are never listed)", "E3 taint (store entries) cleansed by the guard + E2 control dependence", min)
 	seen := map[*ssa.Function]bool{}
 	n := 0
 	for _, q := range d.queries {
